@@ -256,7 +256,8 @@ func crafted() []string {
 		}
 		out = append(out, caseLine(m, ts, tuples, nil, rq))
 	}
-	// TTU tuple cycle over two relations; the shared visited filter is keyed by the parent *object* only
+	// TTU tuple cycle over two relations (finding V2-A, fixed by commit 1d97cee: the shared visited filter was keyed by
+	// the parent *object* only; reverting the fix makes this case answer false)
 	m1 := &fga.Model{Types: []*fga.TypeDef{{Name: "user"},
 		{Name: "folder", Rels: []*fga.RelDef{
 			{Name: "parent", Rewrite: this(), Restrs: []fga.Restr{{Typ: "folder"}}},
@@ -267,7 +268,8 @@ func crafted() []string {
 		{Obj: "folder:a", Rel: "parent", User: "folder:b"}, {Obj: "folder:b", Rel: "parent", User: "folder:b"},
 		{Obj: "folder:b", Rel: "editor", User: "user:x"},
 	}, fga.Req{Obj: "folder:a", Rel: "editor", User: "user:x"})
-	// userset tuple cycle with a condition on a cycle edge: the visited filter runs before the condition filter
+	// userset tuple cycle with a condition on a cycle edge (finding V2-B, fixed by commit 1d97cee: the visited filter ran
+	// before the condition filter; reverting the fix makes this case answer false at breadth 1)
 	m2 := &fga.Model{Types: []*fga.TypeDef{{Name: "user"},
 		{Name: "group", Rels: []*fga.RelDef{{Name: "member", Rewrite: this(), Restrs: []fga.Restr{u, {Typ: "team", Rel: "member", Cond: "c1"}, {Typ: "team", Rel: "member"}}}}},
 		{Name: "team", Rels: []*fga.RelDef{{Name: "member", Rewrite: this(), Restrs: []fga.Restr{u, {Typ: "group", Rel: "member"}}}}}},
@@ -407,6 +409,19 @@ func crafted() []string {
 		{Obj: "group:e", Rel: "rmember", User: "group:d#rmember"},
 		{Obj: "group:d", Rel: "rmember", User: "group:b#rmember"}, {Obj: "group:b", Rel: "rmember", User: "user:x"},
 	}, fga.Req{Obj: "group:a", Rel: "rmember", User: "user:x"})
+	// the same through a recursive tuple-to-userset
+	m13 := &fga.Model{Types: []*fga.TypeDef{{Name: "user"},
+		{Name: "folder", Rels: []*fga.RelDef{
+			{Name: "parent", Rewrite: this(), Restrs: []fga.Restr{{Typ: "folder", Cond: "c1"}, {Typ: "folder"}}},
+			{Name: "rviewer", Rewrite: un(this(), ttu("parent", "rviewer")), Restrs: []fga.Restr{u}},
+		}}},
+		Conds: c1}
+	mk(m13, []fga.Tuple{
+		{Obj: "folder:a", Rel: "parent", User: "folder:c"}, {Obj: "folder:a", Rel: "parent", User: "folder:e"},
+		{Obj: "folder:c", Rel: "parent", User: "folder:d", Cond: "c1", Ctx: []fga.KV{{K: "x", V: 20}}},
+		{Obj: "folder:e", Rel: "parent", User: "folder:d"},
+		{Obj: "folder:d", Rel: "parent", User: "folder:b"}, {Obj: "folder:b", Rel: "rviewer", User: "user:x"},
+	}, fga.Req{Obj: "folder:a", Rel: "rviewer", User: "user:x"})
 	// AND inside a tuple cycle: the weighted graph cannot be built -> fallback to the default engine
 	m5 := &fga.Model{Types: []*fga.TypeDef{{Name: "user"},
 		{Name: "group", Rels: []*fga.RelDef{
